@@ -135,6 +135,25 @@ func programs() []Case {
 			}
 		}
 	}
+	// belongs-to with hooks: slices of Staff whose Company pointers are distinct / shared
+	for _, bel := range []string{"distinct", "shared2", "shared_all"} {
+		for _, stored := range []bool{true, false} {
+			for _, op := range []string{"create", "save_new"} {
+				for _, sh := range []string{"ptr_slice", "slice_val", "slice_ptr", "ptr_slice_ptr"} {
+					for _, n := range []int{2, 3} {
+						for _, outer := range []string{"implicit", "begin"} {
+							for _, mode := range []string{"hooks", "skiphooks"} {
+								if mode == "skiphooks" && (outer != "implicit" || sh != "ptr_slice") {
+									continue
+								}
+								add(Case{Op: op, Shape: sh, Len: n, Kids: "none", Mode: mode, Outer: outer, Belongs: bel, Preset: stored})
+							}
+						}
+					}
+				}
+			}
+		}
+	}
 	// Save of a record whose primary key is set but whose row does not exist
 	for _, outer := range []string{"implicit", "begin"} {
 		for _, mode := range []string{"hooks", "skiphooks"} {
@@ -168,6 +187,30 @@ func programs() []Case {
 			add(Case{Op: "create_batches", Shape: "ptr_slice", Len: 3, Batch: 2, Kids: "none", Mode: "hooks", Outer: outer, Body: body})
 		}
 	}
+	// handle derivations on the same handle before the operation (the
+	// operation then runs on the ORIGINAL handle: hooks must fire as usual),
+	// and the converse: a NewDB+SkipHooks session runs none
+	for _, pre := range []string{"sess_skiphooks", "sess_skiphooks_used", "sess_newdb_skiphooks", "sess_newdb_skiphooks_used", "sess_newdb_used", "sess_newdb_context_used", "updatecolumn", "withcontext_used", "debug_used"} {
+		for _, c := range base {
+			if c.Mode != "hooks" || c.PtrKids || c.Len < 1 || c.Len > 2 || c.Graph != "" || c.Batch != 0 || c.Belongs != "" {
+				continue
+			}
+			if c.Shape != "ptr_struct" && c.Shape != "ptr_slice" {
+				continue
+			}
+			if c.Kids == "pet" || c.Kids == "toys" {
+				continue
+			}
+			c.Prelude = pre
+			add(c)
+		}
+	}
+	for _, c := range base {
+		if c.Mode == "skiphooks" && !c.PtrKids && c.Outer == "implicit" && (c.Shape == "ptr_struct" || c.Shape == "ptr_slice") && c.Len >= 1 && c.Len <= 2 && c.Graph == "" && c.Belongs == "" && c.Batch == 0 {
+			c.Mode = "skiphooks_newdb"
+			add(c)
+		}
+	}
 	// outside the alphabet proper: non-addressable arguments must be rejected
 	for _, op := range []string{"create", "save_new", "save_existing", "update", "delete"} {
 		for _, sh := range []string{"val_struct", "val_array"} {
@@ -195,6 +238,16 @@ func tags(c Case, x *mc.Exec) []string {
 	}
 	if c.Body != "" {
 		t = append(t, c.Op+"/hookbody="+c.Body)
+	}
+	if c.Prelude != "" {
+		t = append(t, c.Op+"/prelude="+c.Prelude)
+	}
+	if c.Belongs != "" {
+		t = append(t, fmt.Sprintf("%s/belongs_to=%s/stored=%v", c.Op, c.Belongs, c.Preset))
+		if !c.Preset && c.Belongs != "distinct" {
+			// input-side predicate of the third defect found on the unchanged tree
+			t = append(t, "belongs-to-new-record-without-key-shared-by-two-parents-of-one-slice")
+		}
 	}
 	if c.Graph != "" {
 		t = append(t, fmt.Sprintf("%s/graph=%s/preset=%v", c.Op, c.Graph, c.Preset))
@@ -482,7 +535,7 @@ func main() {
 	cov := map[string]interface{}{
 		"evaluations":                         st.executions,
 		"distinct_nontrivial":                 cx.distinct.Len(),
-		"rule":                                fmt.Sprintf("every program of {create,save(new),save(existing),save(key set, row missing),update,updates(struct),updates(map),delete,find,first} x {&T,&[]T,[]T,[]*T,&[]*T,&[N]T} x len 0..3 x children {none,has-one,has-many(2),both} (by value and by pointer) x {hooks,SkipHooks session,UpdateColumn(s)} x {gorm's own transaction, caller's transaction}; plus CreateInBatches / Session{CreateBatchSize}.Create with (len,size) in {(1,2),(2,2),(3,2),(4,2),(5,2),(4,3),(5,3)}; plus Create/Save of self-referential many2many graphs with shared pointers (chain, triangle, diamond, fan3, cycle, two roots sharing a peer, two roots + triangle; new records with and without preset keys); plus a slice of these programs (len 1-2, &T / &[]T) repeated with three hook bodies that issue 2-4 statements through one derived handle kept in a variable (write, read back, write; Session/WithContext of the handle; Create then Update); each explored by E1 with a choice point at every hook invocation up to %d failing hooks; non-trivial = distinct (program, failing-hook set) executions in which at least one hook invocation was logged and the whole oracle (once per record, order relative to the driver-log statement, pool/transaction identity, error, later phases, rollback / stored values) was evaluated", bound),
+		"rule":                                fmt.Sprintf("every program of {create,save(new),save(existing),save(key set, row missing),update,updates(struct),updates(map),delete,find,first} x {&T,&[]T,[]T,[]*T,&[]*T,&[N]T} x len 0..3 x children {none,has-one,has-many(2),both} (by value and by pointer) x {hooks,SkipHooks session,UpdateColumn(s)} x {gorm's own transaction, caller's transaction}; plus CreateInBatches / Session{CreateBatchSize}.Create with (len,size) in {(1,2),(2,2),(3,2),(4,2),(5,2),(4,3),(5,3)}; plus Create/Save of self-referential many2many graphs with shared pointers (chain, triangle, diamond, fan3, cycle, two roots sharing a peer, two roots + triangle; new records with and without preset keys); plus a slice of these programs (len 1-2, &T / &[]T) repeated with three hook bodies that issue 2-4 statements through one derived handle kept in a variable (write, read back, write; Session/WithContext of the handle; Create then Update); plus Create/Save of slices of 2-3 parents whose belongs-to pointers (stored or new Company with hooks) are distinct / shared by two / shared by all; plus the same slice of programs run after a handle derivation on the same handle (SkipHooks / NewDB / NewDB+SkipHooks / NewDB+Context sessions, WithContext, Debug, UpdateColumn - abandoned or used once) and inside a NewDB+SkipHooks session; each explored by E1 with a choice point at every hook invocation up to %d failing hooks; non-trivial = distinct (program, failing-hook set) executions in which at least one hook invocation was logged and the whole oracle (once per record, order relative to the driver-log statement, pool/transaction identity, error, later phases, rollback / stored values) was evaluated", bound),
 		"samples":                             cx.samples.List(),
 		"exhaustive":                          exhaustive,
 		"programs":                            len(progs),
